@@ -139,9 +139,9 @@ PROPS = {
     assumptions=["streams 0..k-1 of a Uni channel exist for the whole run (documented use)", "MAX_STREAMS >= 1"],
  ),
  "C07": dict(
-    level_text="Lean 4 proof, for every execution of model M8 (cancel requests at any point, concurrent sends, spurious polls): a stream whose keep-running flag was cleared is never left parked and un-notified once the cancel's wake call has finished, it ends at its first empty consume, yields only buffered events meanwhile, and a cancel touches no other stream's flag / waker / state; counterexample theorem for `untargeted streams keep being woken` on Uni channels (recorded finding). Tied to the code by step-level replay; the scheduler decides `parked forever`.",
+    level_text="Lean 4 proof, for every execution of model M8 (cancel requests at any point, concurrent sends, spurious polls): a stream whose keep-running flag was cleared is never left parked and un-notified once the cancel's wake call has finished, it ends at its first empty consume, yields only buffered events meanwhile, and a cancel touches no other stream's flag / waker / state; counterexample theorem for `untargeted streams keep being woken` on Uni channels (recorded finding). cancel_all_streams(): its unlocked walk over used_streams is a small machine on top of the bookkeeping model (Model/CancelAll.lean): with no listener created / removed meanwhile it tells exactly the listed streams to end, for every list length and MAX_STREAMS (c07_cancel_all_quiescent); interleaved with the removal of a lower-id listener it misses a live stream (c07_cancel_all_race_counterexample = known finding D11, exhibited on the real channels by `multi sub=cancelall`). Tied to the code by step-level replay; the scheduler decides `parked forever`.",
     level_note="Theorem about model M8 under the hypothesis that different streams are driven by tasks with different wakers (TokRun); stream-id recycling is C10's bookkeeping theorem. Known finding: ending a proper subset of a Uni channel's streams starves the others.",
-    lean=["C07"],
+    lean=["C07", "C07_CancelAll"],
     scenarios=[dict(bin="uni", args=[f"kind={k}", "sub=cancel"], runs=500, model_name="M8 Wake", kinds=["cancelled_stream_never_ended", "untargeted_stream_starved", "buffered_event_dropped_at_end", "no_progress", "panic", "invented", "duplicate"]) for k in UNI_KINDS] +
               [dict(bin="multi", args=[f"kind={k}", "sub=cancelall"], runs=400, model=False, model_name="(oracle only: cancel_all_streams racing with the removal of a listener, Multi channels)", kinds=["cancelled_stream_never_ended", "no_progress", "panic"]) for k in MULTI_KINDS],
     rule=UNI_RULE + "; cancel requests for a random subset of the streams are injected after a random number of scheduler turns; `multi sub=cancelall`: 2-3 listeners of a Multi channel (MAX_STREAMS = 4) driven by tasks polled only while notified, one thread removing a listener, one calling cancel_all_streams(), a producer sending 0-2 events",
